@@ -93,9 +93,9 @@ func (eng *Engine) inlinable(fn *ssa.Function, closure bool) bool {
 		return v
 	}
 	eng.inlCache[fn] = false // recursion guard
-	limit := 60
+	limit := 160
 	if closure {
-		limit = 120
+		limit = 200
 	}
 	n := 0
 	ok := true
